@@ -1,15 +1,155 @@
 package main
 
 import (
+	"encoding/json"
+	"flag"
 	"fmt"
-	"golang.org/x/tools/go/packages"
-	"golang.org/x/tools/go/ssa"
-	"golang.org/x/tools/go/ssa/ssautil"
+	"os"
+	"strconv"
+	"strings"
 )
 
+type multiFlag []string
+
+func (m *multiFlag) String() string     { return strings.Join(*m, ",") }
+func (m *multiFlag) Set(s string) error { *m = append(*m, s); return nil }
+
 func main() {
-	_ = packages.Load
-	_ = ssa.BuilderMode(0)
-	_ = ssautil.AllPackages
-	fmt.Println("ok")
+	if len(os.Args) < 2 {
+		fmt.Fprintln(os.Stderr, "usage: gosymx run|check|replay|selftest ...")
+		os.Exit(2)
+	}
+	switch os.Args[1] {
+	case "run":
+		os.Exit(cmdRun(os.Args[2:]))
+	case "check":
+		os.Exit(cmdCheck(os.Args[2:]))
+	case "replay":
+		os.Exit(cmdReplay(os.Args[2:]))
+	case "selftest":
+		os.Exit(cmdSelftest(os.Args[2:]))
+	default:
+		fmt.Fprintln(os.Stderr, "unknown command", os.Args[1])
+		os.Exit(2)
+	}
+}
+
+func cmdRun(args []string) int {
+	fs := flag.NewFlagSet("run", flag.ExitOnError)
+	repo := fs.String("repo", "/repo", "repository root")
+	hdir := fs.String("hdir", "/verif/harness", "harness root")
+	sets := fs.String("sets", "", "comma separated harness sets (directories under hdir)")
+	pkg := fs.String("pkg", "", "import path of the package holding the harness")
+	harness := fs.String("harness", "", "comma separated harness function names")
+	out := fs.String("out", "", "write JSON results here")
+	workers := fs.Int("workers", 16, "parallel workers")
+	verbose := fs.Bool("v", false, "verbose")
+	maxSteps := fs.Int("maxsteps", 0, "instruction budget per path")
+	maxLoop := fs.Int("maxloop", 0, "loop bound")
+	mapOrder := fs.Int("maporder", 0, "map iteration order exploration (0 insertion, 1 rotations, n permutations up to n keys)")
+	cross := fs.Bool("crosscheck", false, "re-decide assertion queries with z3-new and cvc5")
+	redirectsFile := fs.String("redirects", "", "redirect table (JSON: callee -> harness function)")
+	var params multiFlag
+	fs.Var(&params, "param", "K=V harness parameter (repeatable)")
+	fs.Parse(args)
+	cfg := defaultConfig()
+	cfg.Workers = *workers
+	cfg.Verbose = *verbose
+	cfg.MapOrder = *mapOrder
+	cfg.CrossCheck = *cross
+	if *maxSteps > 0 {
+		cfg.MaxSteps = *maxSteps
+	}
+	if *maxLoop > 0 {
+		cfg.MaxLoop = *maxLoop
+	}
+	for _, kv := range params {
+		i := strings.Index(kv, "=")
+		if i < 0 {
+			continue
+		}
+		v, _ := strconv.Atoi(kv[i+1:])
+		cfg.Params[kv[:i]] = v
+	}
+	setList := strings.Split(*sets, ",")
+	ov, _, err := buildOverlay(*repo, *hdir, setList, "sym")
+	if err != nil {
+		fmt.Fprintln(os.Stderr, "overlay:", err)
+		return 2
+	}
+	eng, err := loadEngine(LoadSpec{RepoDir: *repo, Patterns: []string{*pkg}, Overlay: ov}, cfg)
+	if err != nil {
+		fmt.Fprintln(os.Stderr, "load:", err)
+		return 2
+	}
+	if *redirectsFile != "" {
+		if err := eng.loadRedirects(*redirectsFile, *pkg); err != nil {
+			fmt.Fprintln(os.Stderr, "redirects:", err)
+			return 2
+		}
+	}
+	rc := 0
+	var results []*HarnessResult
+	for _, h := range strings.Split(*harness, ",") {
+		res, err := eng.RunHarness(*pkg, h)
+		if err != nil {
+			fmt.Fprintln(os.Stderr, err)
+			return 2
+		}
+		results = append(results, res)
+		fmt.Printf("%s: paths=%d ends=%v asserts=%d obligations=%d queries=%d solver_ms=%d wall=%.1fs violations=%d inconclusive=%d\n",
+			h, res.Paths, res.Ends, res.Asserts, res.Obligations, res.Queries, res.SolverMs, res.WallS, len(res.Violations), len(res.Inconclusive))
+		for _, v := range res.Violations {
+			fmt.Printf("  VIOL %s %s: %s %v\n", v.Kind, v.ID, v.Msg, v.Assignment)
+			if rc == 0 {
+				rc = 1
+			}
+		}
+		for _, m := range res.Inconclusive {
+			fmt.Printf("  INCONCLUSIVE %s\n", m)
+			rc = 2
+		}
+	}
+	if *out != "" {
+		data, _ := json.MarshalIndent(results, "", " ")
+		os.WriteFile(*out, data, 0644)
+	}
+	return rc
+}
+
+// loadRedirects reads {"callee": "harnessFunc"}; harness functions live in pkgPath
+// unless given as "import/path.Func".
+func (e *Engine) loadRedirects(file, pkgPath string) error {
+	data, err := os.ReadFile(file)
+	if err != nil {
+		return err
+	}
+	var tbl map[string]string
+	if err := json.Unmarshal(data, &tbl); err != nil {
+		return err
+	}
+	return e.setRedirects(tbl, pkgPath)
+}
+
+func (e *Engine) setRedirects(tbl map[string]string, pkgPath string) error {
+	idx := e.buildFuncIndexCached()
+	for callee, target := range tbl {
+		if strings.HasPrefix(callee, "#") {
+			continue
+		}
+		tp, tn := pkgPath, target
+		if i := strings.LastIndex(target, "."); i >= 0 {
+			tp, tn = target[:i], target[i+1:]
+		}
+		tf := e.findFunc(tp, tn)
+		if tf == nil {
+			return fmt.Errorf("redirect target %s.%s not found", tp, tn)
+		}
+		if _, ok := idx[callee]; !ok {
+			// callee may legitimately be absent from the build (never referenced); only warn
+			fmt.Fprintf(os.Stderr, "warning: redirect source %s not found in program\n", callee)
+		}
+		e.redirects[callee] = tf
+	}
+	return nil
 }
